@@ -239,7 +239,7 @@ def attach_expectations(ctx, cases):
 
 
 def generate(ctx, arithmetic_only=False):
-    n = ctx.pick(4000, 40000)
+    n = ctx.pick(3000, 40000)
     max_stmts = ctx.pick(25, 60)
     max_depth = ctx.pick(3, 5)
     batch = []
